@@ -87,8 +87,15 @@ def gen_case(st, tier):
         # some implementations are built on inner datasources (the first_of([...]) shape of DefaultSpecs.lsof etc.):
         # the inner one is what feeds grep / the allow-list, two levels below the registry point
         inner = dict((r, rp.choice([0, 0, 1, 2])) for r in impls)
+        built_on = {}
+        if "rf" in impls and "rn" in impls and rp.random() < 0.3:
+            # the implementation of the NON-filterable spec is built on the implementation of the filterable one (the
+            # provider of a foreach_collect / command_with_args, as httpd_configuration_files on DefaultSpecs): one
+            # datasource then serves two registry points with different flags
+            built_on["rn"] = "rf"
+            inner["rn"] = 0
         ops.append({"op": "defclass", "name": nm, "impls": impls, "h": [rp.getrandbits(40) for _ in impls], "inner": inner,
-                    "ih": rp.getrandbits(40)})
+                    "ih": rp.getrandbits(40), "built_on": built_on})
         defined["impl"].extend("%s.%s" % (nm, r) for r in impls)
         defined["inner"].extend("%s.%s.%d" % (nm, r, k) for r in impls for k in range(inner[r]))
 
@@ -228,11 +235,18 @@ class FilterWorld(object):
                     self.objs[ik] = self._ds(ik, (op.get("ih", 0) + 7919 * (k + 1) + hash_str(rn)) % (1 << 40), [HostContext])
                     self.meta[ik] = {"kind": "inner", "deps": [], "filterable": False, "attr": None, "raw": False, "ds": True, "of": key}
                     inner_keys.append(ik)
-                ds = self._ds(key, h, [[self.objs[ik] for ik in inner_keys]] if inner_keys else [HostContext])
+                on = (op.get("built_on") or {}).get(rn)
+                on_key = "impl:%s.%s" % (op["name"], on) if on else None
+                if on_key is not None and on_key in self.objs:
+                    ds = self._ds(key, h, [self.objs[on_key]])
+                else:
+                    on_key = None
+                    ds = self._ds(key, h, [[self.objs[ik] for ik in inner_keys]] if inner_keys else [HostContext])
                 cb[rn] = ds
                 self.objs[key] = ds
                 r = [x for x in self.case["rps"] if x["name"] == rn][0]
-                self.meta[key] = {"kind": "impl", "deps": list(inner_keys), "filterable": r["filterable"], "attr": r["filterable"], "raw": r["raw"], "ds": True}
+                self.meta[key] = {"kind": "impl", "deps": list(inner_keys) + ([on_key] if on_key else []), "filterable": r["filterable"],
+                                  "attr": r["filterable"], "raw": r["raw"], "ds": True}
                 self.meta["rp:" + rn]["deps"].append(key)
             type(op["name"], (self.base,), cb)
         elif k == "defparser":
